@@ -179,10 +179,23 @@ func (v *Verifier) funcKey(fn *ssa.Function) string {
 		pkg = fn.Origin().Pkg.Pkg.Path()
 	}
 	name := fn.Name()
+	if fn.Origin() != nil {
+		if i := strings.Index(name, "["); i > 0 {
+			name = name[:i] // an instance of a generic function: contracts are stated for the generic function
+		}
+	}
 	if r := fn.Signature.Recv(); r != nil {
 		name = recvName(r.Type()) + "." + name
 	}
 	return strings.TrimPrefix(pkg, "github.com/consensys/gnark-crypto/") + "." + name
+}
+
+// pkgOf: the package of a function; for an instance of a generic function, the package of the generic function
+func pkgOf(fn *ssa.Function) *ssa.Package {
+	if fn.Pkg == nil && fn.Origin() != nil {
+		return fn.Origin().Pkg
+	}
+	return fn.Pkg
 }
 
 func (v *Verifier) lookupContract(fn *ssa.Function) *Contract {
@@ -190,7 +203,7 @@ func (v *Verifier) lookupContract(fn *ssa.Function) *Contract {
 	c := v.contracts[fk]
 	// prefer the contract stated at the current abstraction layer
 	for k, cand := range v.contracts {
-		if strings.HasPrefix(k, fk+"@") && v.layerKeyOf(fn.Pkg, cand) == v.curLayerKey {
+		if strings.HasPrefix(k, fk+"@") && v.layerKeyOf(pkgOf(fn), cand) == v.curLayerKey {
 			c = cand
 			break
 		}
@@ -1159,6 +1172,17 @@ func (fr *Frame) havocLoop(st *State, h *ssa.BasicBlock, body map[*ssa.BasicBloc
 			}
 			save := v.nullableResults
 			v.nullableResults = true
+			allAlloc := true
+			for _, e := range p.Edges {
+				if _, isAlloc := e.(*ssa.Alloc); !isAlloc {
+					allAlloc = false
+				}
+			}
+			if allAlloc {
+				// a per-iteration copy of a loop variable that a closure captures: every value of the phi is a new
+				// allocation, never nil
+				v.nullableResults = false
+			}
 			nv := v.symValue(nm, p.Type(), false)
 			v.nullableResults = save
 			markWild(nv)
